@@ -72,6 +72,8 @@ static void use_item(cbor_item_t* it, Digest& d) {
   d.add64(cbor_serialized_size(it));
   unsigned char* b = nullptr; size_t bl = 0; size_t w = cbor_serialize_alloc(it, &b, &bl);
   d.add64(w); if (b) { d.add(b, w); _cbor_free(b); }
+  unsigned char* b2 = nullptr; size_t w2n = cbor_serialize_alloc(it, &b2, nullptr);   // the buffer_size argument is optional
+  d.add64(w2n); if (b2) { d.add(b2, w2n); _cbor_free(b2); }
   cbor_item_t* cp = cbor_copy(it);
   if (cp) { unsigned char fixed[512]; size_t w2 = cbor_serialize(cp, fixed, sizeof fixed); d.add64(w2); d.add(fixed, w2 < sizeof fixed ? w2 : 0); cbor_decref(&cp); }
   char* text = nullptr; size_t tl = 0; FILE* f = open_memstream(&text, &tl);
